@@ -98,7 +98,7 @@ func runCliCase(c cliCase, traverse bool) (obs cliCase, runSeen string, errText 
 		tap.FailName = "Manager.Wipeout"
 	}
 	km, ca, flags := a.components(tap)
-	keysComp := cmd.Compose(km, ca, &injector{tap})
+	keysComp := cmd.Compose(km, ca, &injector{t: tap})
 	var mu sync.Mutex
 	var log []cliEv
 	rec := func(slot int) *recComp {
